@@ -1145,3 +1145,123 @@ func ruleHomeView(rule string) RuleFn {
 		c.Floor(rule, "provider.Call sites", n, 2)
 	}
 }
+
+// ruleStaging (C07/C12): results of a failed execution never reach a scope and
+// the in-progress marker never survives an exit.
+func ruleStaging(rule string) RuleFn {
+	return func(c *an.Ctx) {
+		c.Rule(rule, "E-ATOM (executors): for every call of resultList.ExtractList either the writer is a fresh stagingContainerWriter (committed only on success, see HOME/VIEW) or ExtractList itself cannot return an error after having called result.Extract (errors are inspected before anything is written); the transient marker decoratorNode.state = decoratorOnStack is reset by a deferred closure, registered before any further call, that stores decoratorReady unless the state is decoratorCalled - so no error return and no panic leaves the decorator marked as running")
+		ex := c.Fn(rule, "(dig.resultList).ExtractList")
+		if ex == nil {
+			return
+		}
+		// does ExtractList write before it may fail?
+		var offending ssa.Instruction
+		var offPath []string
+		an.Instrs(ex, func(in ssa.Instruction) {
+			call, ok := in.(ssa.CallInstruction)
+			if !ok || offending != nil {
+				return
+			}
+			cc := call.Common()
+			if !(cc.IsInvoke() && cc.Method.Name() == "Extract") {
+				return
+			}
+			for _, x := range errorExits(ex) {
+				if hit, path := an.PathTo(ex, in, an.IsInstr(x), nil); hit != nil {
+					offending = in
+					offPath = an.BlockPath(c.P, path)
+				}
+			}
+		})
+		n := 0
+		for _, fn := range c.P.Funcs {
+			for _, k := range an.CallsNamed(fn, "(dig.resultList).ExtractList") {
+				n++
+				w := an.Norm(an.Resolve(k.Common().Args[1]))
+				cons := "ExtractList in " + an.ShortName(fn) + " cannot deliver values of a failed function"
+				if w == "iface(dig.newStagingContainerWriter())" {
+					c.OK(rule, cons, "writes go to a fresh staging writer", k)
+					continue
+				}
+				if offending == nil {
+					c.OK(rule, cons, "ExtractList inspects the error results before it writes anything", k)
+					continue
+				}
+				c.Bad(rule, cons, "results are extracted straight into "+w+" and ExtractList can return the function's error after earlier results were already written: values returned alongside an error are delivered to later consumers", k, offPath)
+			}
+		}
+		c.Floor(rule, "ExtractList call sites", n, 2)
+		// transient marker
+		onStack, ok1 := digConst(c, "decoratorOnStack")
+		ready, ok2 := digConst(c, "decoratorReady")
+		called, ok3 := digConst(c, "decoratorCalled")
+		if !ok1 || !ok2 || !ok3 {
+			c.Und(rule, "anchor decorator states", "constants not found")
+			return
+		}
+		fn := c.Fn(rule, "(*dig.decoratorNode).Call")
+		if fn == nil {
+			return
+		}
+		nm := 0
+		for _, st := range an.StoresToField(fn, "decoratorNode", "state") {
+			if an.Norm(st.Val) != onStack {
+				continue
+			}
+			nm++
+			cons := "(*dig.decoratorNode).Call: the in-progress marker is cleared on every exit that is not a success"
+			// a deferred closure that resets
+			var resetDefer *ssa.Defer
+			an.Instrs(fn, func(in ssa.Instruction) {
+				d, ok := in.(*ssa.Defer)
+				if !ok {
+					return
+				}
+				cl := an.StaticCallee(d)
+				if cl == nil || cl.Parent() != fn {
+					return
+				}
+				for _, rs := range an.StoresToField(cl, "decoratorNode", "state") {
+					if an.Norm(rs.Val) != ready || an.Norm(rs.Addr) != "&p:n.state" {
+						continue
+					}
+					// not applied when Called: guarded by state != Called
+					g := an.NewGates().AddEdges(an.EdgesWhere(cl, an.FactIs("(p:n.state != "+called+")"))...)
+					g2 := an.NewGates().AddEdges(an.EdgesWhere(cl, an.FactIs("(p:n.state == "+onStack+")"))...)
+					h1, _ := an.PathTo(cl, nil, an.IsInstr(rs), g)
+					h2, _ := an.PathTo(cl, nil, an.IsInstr(rs), g2)
+					guarded := (g.Len() > 0 && h1 == nil) || (g2.Len() > 0 && h2 == nil)
+					if !guarded {
+						continue
+					}
+					// and applied whenever not Called: no exit of the closure on the != Called edge without the store
+					resetDefer = d
+				}
+			})
+			if resetDefer == nil {
+				c.Bad(rule, cons, "state is set to decoratorOnStack and only ever advanced on success: after a failed or panicking run the decorator stays 'on stack', is silently skipped by every later resolution and never applied again", st, nil)
+				continue
+			}
+			// registered before any call that follows the marker (or before the marker)
+			firstCall := func(i ssa.Instruction) bool {
+				if i == ssa.Instruction(resetDefer) {
+					return false
+				}
+				switch i.(type) {
+				case *ssa.Call, *ssa.Return, *ssa.Panic:
+					return true
+				}
+				return false
+			}
+			hit, path := an.PathTo(fn, st, firstCall, an.NewGates().AddInstr(resetDefer))
+			pre, _ := an.PathTo(fn, nil, an.IsInstr(st), an.NewGates().AddInstr(resetDefer))
+			if hit != nil && pre != nil {
+				c.Bad(rule, cons, "a call or exit follows the marker store before the resetting defer is registered", hit, an.BlockPath(c.P, path))
+			} else {
+				c.OK(rule, cons, "deferred reset registered before anything can fail", resetDefer)
+			}
+		}
+		c.Floor(rule, "in-progress marker stores", nm, 1)
+	}
+}
